@@ -58,7 +58,7 @@ pub fn inproc(a: &Args) -> Report {
         let target: [u8; 20] = rng.array();
         let size = *rng.pick(&[3usize, 8, 21, 30]);
         let (uni, feat) = super::c11::universe(&mut rng, &target, size);
-        super::c11::check_table(&mut r, &mut rng, &uni, feat, &[target], c);
+        super::c11::check_table(&mut r, &mut rng, &uni, feat, &[target], c, None);
         super::c11::check_accumulator(&mut r, &mut rng, &uni, feat, &target, c);
     }
     // C12: operation sequences under the harness clock
